@@ -14,9 +14,9 @@ PROPERTY = "C16"
 LEVEL = "model_checking"
 RULE = (
     "states = histories over {write(cfg) for cfg in the writer alphabet} u {replace index, edit the last / the first index sample in place, shift the whole index by 0.01, insert "
-    "a curve at position 0, edit another curve, edit a header value, edit WRAP} from 17 roots (scratch LASFiles with "
+    "a curve at position 0, edit another curve, edit a header value, edit WRAP} from 19 roots (scratch LASFiles with "
     "increasing / decreasing / irregular / single-sample index, with and without units; files read with STOP agreeing "
-    "or not, STRT disagreeing, 1.2, wrapped, empty-valued items, text curve, duplicate mnemonics, depths around 3000, STRT/STOP/STEP units disagreeing, read with mnemonic_case='lower'); on every write "
+    "or not, STRT disagreeing, 1.2, wrapped, empty-valued items, text curve, duplicate mnemonics, depths around 3000, STRT/STOP/STEP units disagreeing, read with mnemonic_case='lower', a declared STEP of 0 over a regular and an irregular index); on every write "
     "transition: (a) frame - full snapshot before/after differs only inside the statement's allow-list, VERS untouched; "
     "(b) repeat - a write following a write with the same options is byte-identical and changes nothing; (c) truth - "
     "when the index is dirty, read(output) has STRT/STOP = first/last index, STEP = first increment, units = index "
@@ -37,10 +37,11 @@ FILE = (
 )
 
 
-def file_text(vers="2.0", wrap="NO", strt="1.0", stop="3.0", step="1.0", text_curve=False, dup=False, deep=False, mixed_units=False):
+def file_text(vers="2.0", wrap="NO", strt="1.0", stop="3.0", step="1.0", text_curve=False, dup=False, deep=False, mixed_units=False,
+              irregular=False):
     well = "w1 : well name" if vers == "2.0" else "well name : w1"
     extra = ""
-    rows = [["1.0", "10.5"], ["2.0", "-999.25"], ["3.0", "30.5"]]
+    rows = [["1.0", "10.5"], ["2.0", "-999.25"], ["3.0" if not irregular else "3.5", "30.5"]]
     if text_curve:
         extra = "TXT. : text curve\n"
         for i, r in enumerate(rows):
@@ -71,6 +72,8 @@ ROOTS = {
     "read-dup": file_text(dup=True), "read-stop-wrong-12": file_text(vers="1.2", stop="9"),
     "read-deep": file_text(deep=True), "read-mixed-units": file_text(mixed_units=True),
     "readlower-12-stop-wrong": file_text(vers="1.2", stop="9"), "readlower-20": file_text(),
+    # a declared STEP of 0 (the LAS 2.0 convention for "variable step"), with a regular and with an irregular index
+    "read-step0": file_text(step="0"), "read-step0-irr-stop-wrong": file_text(step="0.0", stop="9", irregular=True),
 }
 
 
